@@ -23,7 +23,7 @@ RULE = (
 )
 ASSUMPTIONS = [
     "non-zero pilots below 1e-8 A are outside the generated domain (DESIGN.md section 5)",
-    "slack: 1e-8 A on currents, 1e-9 relative on power, 1e-12*capacity on stored charge",
+    "slack: 1e-8 A on currents, 1e-9 relative on power, max(1e-12*capacity, 1e-8 A * V * T) on stored charge",
 ]
 
 
@@ -49,7 +49,10 @@ def prop(spec, rec):
     labels = {spec["model"]}
     if spec["model"] != "ideal" and spec["noise"] > 0:
         labels.add("noise")
-    slack_c = 1e-12 * max(1.0, cap)
+    # stored charge may move by rounding noise: 1e-12 relative to capacity, or what the admitted
+    # current slack of 1e-8 A amounts to over one period (the stepwise model scales a 1-ulp
+    # overshoot of the capacity by max_power / (1 - transition_soc), e.g. -1.5e-12 kW at 0.999)
+    slack_c = max(1e-12 * max(1.0, cap), 1e-8 * V / 1000.0 * T / 60.0)
     crossed = False
     big_noise = False
     with patched_normal(spec["zs"]) as feed:
